@@ -70,7 +70,7 @@ func VerifH_C09_L1_adoption() {
 func VerifH_C09_L2_crash() {
 	p := verifSetupPass(verifPassOpts{
 		job:           verifJobOpts{maxRefs: 2, parallel: 0, started: 1, allowKill: true, maxAttemptsHi: 3, inv8: true, concreteTimes: true, oneResult: true, preMarked: true},
-		cacheMayLag:   true, taskMayFinish: true, createOutcomes: 1,
+		cacheMayLag:   true, taskMayFinish: true, taskMayLoseRunning: true, createOutcomes: 1,
 	})
 	j := p.j
 	// ghost truth: which pods exist in the API
